@@ -1264,6 +1264,33 @@ def shard_c20(desc, rec):
                     _SPEC[id(d1)] = (d1, _copy.deepcopy(ent[1])); _SPEC[id(d2)] = (d2, _copy.deepcopy(ent[1]))
                 pool.extend([d1, d2])
                 pool = pool[-4:]
+            elif r < 0.46 and kind == "platCal" and len(pool) >= 2:
+                # two blocks filled through add_platforms with the *same* argument lists: what the second one gets is
+                # what a block gets that is the only one ever filled from these lists
+                a_, b_ = rng.sample(range(len(pool)), 2)
+                if pool[a_] is pool[b_]:
+                    continue
+                used_ab = set(observed_pairs(kind, pool[a_])[0] or []) | set(observed_pairs(kind, pool[b_])[0] or [])
+                chs_ = [c_ for c_ in range(300, 340) if c_ not in used_ab][: rng.randint(1, 3)]
+                chs0 = list(chs_)
+                what = f"#{a_}.add_platforms(P, L); #{b_}.add_platforms(Q, L)  (L={chs0})"
+                steps.append(what)
+                before = [(b, sn) for b, sn in before if b is not pool[a_]]
+                touched = pool[b_]
+                try:
+                    pool[a_].add_platforms([_mk_item(rng, kind, 3) for _ in chs0], chs_)
+                    nb_before = len(_items(kind, pool[b_]))
+                    pool[b_].add_platforms([_mk_item(rng, kind, 3) for _ in chs0], chs_)
+                except Exception as e:
+                    steps.append(f"refused:{type(e).__name__}")
+                    continue
+                rec.count("oracle:C20.argument-lists-reused-across-blocks")
+                got_ch = (observed_pairs(kind, pool[b_])[0] or [])[nb_before:]
+                if got_ch != chs0 or chs_ != chs0:
+                    V("call-on-one-instance-changes-what-the-next-gets",
+                      f"the second block was given channels {chs0} and holds {got_ch}; the caller's list is now {chs_}")
+                    ok = False
+                    break
             elif r < 0.5 and kind in ("emg", "platData", "platCal") and len(pool) >= 2:
                 # one item object bound into a second block, under another channel: the first block keeps its own pairing
                 a_, b_ = rng.sample(range(len(pool)), 2)
